@@ -808,14 +808,16 @@ def _equals(v, size):
     return as_expr(v) == as_expr(size)
 
 
-def _decimals_verdict(text, exact, n):
-    """'' ok | 'format' (not n decimal places) | 'trunc' (decimals=0: floor instead of round) | 'value' (anything else)."""
+def _decimals_verdict(text, exact, n, as_computed=None):
+    """'' ok | 'format' (not n decimal places) | 'trunc' (decimals=0: floor instead of round) | 'value' (anything else).
+    as_computed: the percentage as the code computes it in doubles, (count / size) * 100 - its floor can be one below the floor of the exact value
+    (114/200 -> 56.99999999999999 -> 56): the same recorded truncation, seen through double arithmetic."""
     import math
     if _decimals(text) != n:
         return "format"
     if abs(float(text) - exact) <= 0.5 * 10 ** (-n) + 1e-9:
         return ""
-    if n == 0 and float(text) == math.floor(exact + 1e-9):
+    if n == 0 and (float(text) == math.floor(exact + 1e-9) or (as_computed is not None and float(text) == math.floor(as_computed))):
         return "trunc"
     return "value"
 
@@ -837,7 +839,7 @@ def _decimals_check(ctx, ex, run, n):
             if ratio.token is None:
                 cnum, snum = fig_value(ex, count), size
                 if isinstance(cnum, (int, float)) and isinstance(snum, int) and snum:
-                    v = _decimals_verdict(ratio.text, 100.0 * cnum / snum, n)
+                    v = _decimals_verdict(ratio.text, 100.0 * cnum / snum, n, (float(cnum) / float(snum)) * 100)
                     if v:
                         yield (msgs[v][0], True, msgs[v][1])
                 continue
@@ -856,7 +858,7 @@ def _decimals_check(ctx, ex, run, n):
                     if s_ == 0:
                         return False
                     text = format(r, entry[1]) if entry[2] == "format" else str(r)
-                    return _decimals_verdict(text, 100.0 * c / s_, n) == verdict
+                    return _decimals_verdict(text, 100.0 * c / s_, n, (float(c) / float(s_)) * 100) == verdict
                 yield (msgs[verdict][0], rf._table(deps2, pred), msgs[verdict][1])
 
 
